@@ -138,6 +138,12 @@ def sim_plan_st(draw, tier, ctx=None, want_absent_arms=False, max_bandits=3):
     batch_size = draw(st.integers(1, n_test)) if online else 0
     if big and online:
         batch_size = draw(st.sampled_from([x for x in (101, 120, 150, 200, 64, 100) if x <= n_test]))
+    # "every bandit handed to the Simulator" includes bandits that have a life behind them: one in three has been trained
+    # and queried through the public API before (its generator has moved, LSH planes were drawn once already, ...)
+    for b in bandits:
+        if draw(st.integers(0, 2)) == 0:
+            b["pre"] = {"rows": draw(st.integers(min(n, max(min_train, 2)), n)), "queries": draw(st.integers(1, 3)),
+                        "expectations": draw(st.booleans())}
     scaler = None
     if contexts is not None and draw(st.integers(0, 5)) == 0:
         scaler = draw(st.sampled_from(["standard", "minmax"]))   # the Simulator's own scaler argument
@@ -149,7 +155,26 @@ def sim_plan_st(draw, tier, ctx=None, want_absent_arms=False, max_bandits=3):
 
 
 def build_bandits(plan):
-    return [(b["name"], ops.build(b["config"])) for b in plan["bandits"]]
+    out = []
+    for b in plan["bandits"]:
+        mab = ops.build(b["config"])
+        pre = b.get("pre")
+        if pre:
+            # used before: fit on the first rows of the data set, then a few queries (the copies the replay uses are
+            # taken afterwards, so both sides start from the same used bandit)
+            k = pre["rows"]
+            try:
+                ctx = np.asarray(plan["contexts"][:k], dtype=float) if plan["contexts"] is not None else None
+                mab.fit(list(plan["decisions"][:k]), list(plan["rewards"][:k]), ctx)
+                for j in range(pre["queries"]):
+                    q = ctx[j % k: j % k + 2] if ctx is not None else None
+                    mab.predict(q)
+                    if pre["expectations"]:
+                        mab.predict_expectations(q)
+            except Exception:
+                mab = ops.build(b["config"])      # data the configuration rejects (data-dependent metrics): a fresh one
+        out.append((b["name"], mab))
+    return out
 
 
 def make_scaler(plan):
